@@ -38,6 +38,12 @@ def readUnary : (fuel : Nat) → CellR → Outcome (Nat × CellR)
     | true :: rest => do
       let (n, r') ← readUnary fuel { r with bits := rest }
       pure (n + 1, r')
+/-- skip `n` bits when `flag` is set (a `Maybe` field that is not looked at) -/
+def skipIf (r : CellR) (flag : Bool) (n : Nat) : Outcome CellR :=
+  if flag then (r.readBits n).bind (fun x => .ok x.2) else .ok r
+/-- skip one ref when `flag` is set -/
+def skipRefIf (r : CellR) (flag : Bool) : Outcome CellR :=
+  if flag then (r.nextRef).bind (fun x => .ok x.2) else .ok r
 /-- CopyRemaining (tlb.Any): an ordinary cell with the remaining bits and refs; the cursor is left where it was -/
 def remaining (r : CellR) : Cell := .ordinary r.bits r.refs
 end CellR
